@@ -673,7 +673,54 @@ func runGCConc(env *ev.Env, c Case) (o ev.Outcome) {
 
 // ---- part store cases (run in the child) -------------------------------------------------------
 
+// breakOnce wraps the inner store of the cache part store: when armed (breakAfter >= 0) the next part reader it
+// hands out fails with a non-EOF error after breakAfter bytes (a connection reset, EIO, a cancelled read).
+type breakOnce struct {
+	partstore.PartStore
+	mu         sync.Mutex
+	breakAfter int
+}
+
+var errBrokenStream = errors.New("verif: broken inner stream")
+
+func (b *breakOnce) Capabilities() partstore.Capabilities { return partstore.CapabilitiesOf(b.PartStore) }
+
+func (b *breakOnce) GetPart(ctx context.Context, tx database.Tx, id partstore.PartId) (io.ReadCloser, error) {
+	rc, err := b.PartStore.GetPart(ctx, tx, id)
+	if err != nil {
+		return nil, err
+	}
+	b.mu.Lock()
+	n := b.breakAfter
+	b.breakAfter = -1
+	b.mu.Unlock()
+	if n < 0 {
+		return rc, nil
+	}
+	return &breakingReader{rc: rc, left: n}, nil
+}
+
+type breakingReader struct {
+	rc   io.ReadCloser
+	left int
+}
+
+func (r *breakingReader) Read(p []byte) (int, error) {
+	if r.left <= 0 {
+		return 0, errBrokenStream
+	}
+	if len(p) > r.left {
+		p = p[:r.left]
+	}
+	n, err := r.rc.Read(p)
+	r.left -= n
+	return n, err
+}
+
+func (r *breakingReader) Close() error { return r.rc.Close() }
+
 type psEnv struct {
+	brk   *breakOnce
 	dir   string
 	db    database.Database
 	b     *stacks.Builder
@@ -709,6 +756,11 @@ func openPS(env *ev.Env, c Case) (*psEnv, error) {
 	if inner == "" {
 		inner = "fs"
 	}
+	brk := &breakOnce{breakAfter: -1}
+	opts.WrapBase = func(name string, ps partstore.PartStore) partstore.PartStore {
+		brk.PartStore = ps
+		return brk
+	}
 	b := stacks.NewBuilder(dir, db, opts)
 	ps, err := b.Build(layer+">"+inner, "default")
 	if err == nil {
@@ -719,7 +771,7 @@ func openPS(env *ev.Env, c Case) (*psEnv, error) {
 		os.RemoveAll(dir)
 		return nil, err
 	}
-	return &psEnv{dir: dir, db: db, b: b, ps: ps, inner: b.Bases["default"], txGet: inner == "sql"}, nil
+	return &psEnv{brk: brk, dir: dir, db: db, b: b, ps: ps, inner: b.Bases["default"], txGet: inner == "sql"}, nil
 }
 
 func (p *psEnv) close() {
@@ -1057,6 +1109,47 @@ func runPSSeq(env *ev.Env, c Case) (o ev.Outcome) {
 				}
 				r.close()
 			}
+		case "breakget":
+			// a download whose inner stream breaks with a non-EOF error after N bytes (if the part is served from
+			// the cache the inner store is not asked and nothing breaks): the broken download may fail, nothing of
+			// it may be kept as the complete part (seeded defect S-C40-3)
+			if !present[id] {
+				continue
+			}
+			p.brk.mu.Lock()
+			p.brk.breakAfter = max(1, op.N)
+			p.brk.mu.Unlock()
+			r, err := p.open(p.ps, id)
+			if err == nil {
+				var got []byte
+				var rerr error
+				buf := make([]byte, 4096)
+				for i := 0; i < 1<<16; i++ {
+					n, e := r.rc.Read(buf)
+					got = append(got, buf[:n]...)
+					if e != nil {
+						rerr = e
+						break
+					}
+				}
+				r.close()
+				o.Sub++
+				w := content[id]
+				switch {
+				case !bytes.HasPrefix(w, got):
+					o.Failf("%s: a download whose inner stream broke delivered bytes that were not stored under that id", when)
+					return
+				case rerr == io.EOF && len(got) != len(w):
+					o.Failf("%s: a download whose inner stream broke after %d bytes ended with a clean EOF after %d of %d bytes", when, op.N, len(got), len(w))
+					return
+				case rerr != io.EOF:
+					o.Class("ps-seq:download-broken-by-inner-stream-error")
+					interesting = true
+				}
+			}
+			p.brk.mu.Lock()
+			p.brk.breakAfter = -1
+			p.brk.mu.Unlock()
 		case "read", "close", "drain":
 			if len(readers) == 0 {
 				continue
@@ -1670,7 +1763,12 @@ func genPSSeq(t *rapid.T, env *ev.Env) Case {
 			return d
 		case 6, 7, 8:
 			return Op{Op: "get", K: k}
-		case 9, 10:
+		case 9:
+			return Op{Op: "abandon", K: k, N: rapid.SampledFrom([]int{1, 50, 5000, 19999}).Draw(t, "n")}
+		case 10:
+			if rapid.Bool().Draw(t, "breakget") {
+				return Op{Op: "breakget", K: k, N: rapid.SampledFrom([]int{1, 50, 3000, 5000}).Draw(t, "bn")}
+			}
 			return Op{Op: "abandon", K: k, N: rapid.SampledFrom([]int{1, 50, 5000, 19999}).Draw(t, "n")}
 		case 11, 12, 13:
 			return Op{Op: "open", K: k}
@@ -1778,6 +1876,11 @@ func directed(env *ev.Env) []Case {
 			Ops: []Op{{Op: "put", K: 0, Commit: true}, {Op: "get", K: 0}, {Op: "del", K: 0, Commit: true, Mode: "window"}, {Op: "get", K: 0}, {Op: "get", K: 0}}},
 		{Kind: "ps-seq", Persistor: "fs", Policy: "none", Inner: "sql", Cold: true, Lens: []int{5000},
 			Ops: []Op{{Op: "del", K: 0, Commit: false, Mode: "window"}, {Op: "get", K: 0}, {Op: "del", K: 0, Commit: true, Mode: "window"}, {Op: "get", K: 0}}},
+		// a download broken by an inner stream error in mid-part, then complete downloads of the same part
+		{Kind: "ps-seq", Persistor: "mem", Policy: "none", Inner: "fs", Cold: true, Lens: []int{8192},
+			Ops: []Op{{Op: "breakget", K: 0, N: 3000}, {Op: "get", K: 0}, {Op: "get", K: 0}}},
+		{Kind: "ps-seq", Persistor: "fs", Policy: "lfu-keys", Limit: 3, Inner: "sql", Lens: []int{20000},
+			Ops: []Op{{Op: "put", K: 0, Commit: true}, {Op: "del", K: 0, Commit: false}, {Op: "breakget", K: 0, N: 5000}, {Op: "get", K: 0}}},
 		// second reader while the first one is filling the cache (filesystem persistor)
 		{Kind: "ps-seq", Persistor: "fs", Policy: "lfu-keys", Limit: 3, Inner: "sql", Lens: []int{20000},
 			Ops: []Op{{Op: "put", K: 0, Commit: true}, {Op: "get", K: 0}, {Op: "get", K: 0}}},
